@@ -8,20 +8,26 @@ use serde::{Deserialize, Serialize};
 /// The real type's recursive BTreeMap drop glue does not get through CBMC once a frame has
 /// passed through a symbolic lookup (probe: >15 min, 5 GB), so metadata is modelled by a
 /// non-recursive value; JSON fidelity of `meta` is C12's business and is not claimed here.
-#[derive(Clone, PartialEq, Eq, Debug, Default, Serialize, Deserialize)]
+#[derive(Clone, Copy, PartialEq, Eq, Debug, Default, Serialize, Deserialize)]
 pub enum Value {
     #[default]
     Null,
     Bool(bool),
     Number(u64),
-    String(String),
+    /// short string, inline (no heap: `Frame`'s only heap field stays `topic`)
+    Str([u8; 8], usize),
 }
 impl Value {
-    pub fn as_str(&self) -> Option<&str> {
-        match self {
-            Value::String(s) => Some(s),
-            _ => None,
+    pub fn string(s: &str) -> Value {
+        let b = s.as_bytes();
+        let mut a = [0u8; 8];
+        let n = if b.len() < 8 { b.len() } else { 8 };
+        let mut i = 0;
+        while i < n {
+            a[i] = b[i];
+            i += 1;
         }
+        Value::Str(a, n)
     }
     pub fn get(&self, _k: &str) -> Option<&Value> {
         None
@@ -29,9 +35,49 @@ impl Value {
 }
 
 pub const JCAP: usize = 8;
-pub static mut TABLE: [Option<Frame>; JCAP] = [
-    None, None, None, None, None, None, None, None,
-];
+pub const TMAX: usize = 16;
+
+/// One stored frame, decomposed into scalars. A lookup selects *scalars* by case split and
+/// then builds ONE fresh `Frame` (one String, concrete capacity): cloning whole `Frame`s under a
+/// symbolic index merges heap pointers and made every read cost minutes.
+#[derive(Clone, Copy)]
+pub struct Row {
+    pub used: bool,
+    pub tlen: usize,
+    pub topic: [u8; TMAX],
+    pub ctx: u128,
+    pub id: u128,
+    /// 0 none, 1 forever, 2 ephemeral, 3 time, 4 head
+    pub ttl_kind: u8,
+    pub ttl_secs: u64,
+    pub ttl_nanos: u32,
+    pub ttl_n: u32,
+    pub has_hash: bool,
+    pub hash: u32,
+    /// 0 none, 1 null, 2 bool, 3 number, 4 string (<= 8 bytes)
+    pub meta_kind: u8,
+    pub meta_num: u64,
+    pub meta_slen: usize,
+    pub meta_s: [u8; 8],
+}
+pub const ROW0: Row = Row {
+    used: false,
+    tlen: 0,
+    topic: [0; TMAX],
+    ctx: 0,
+    id: 0,
+    ttl_kind: 0,
+    ttl_secs: 0,
+    ttl_nanos: 0,
+    ttl_n: 0,
+    has_hash: false,
+    hash: 0,
+    meta_kind: 0,
+    meta_num: 0,
+    meta_slen: 0,
+    meta_s: [0; 8],
+};
+pub static mut TABLE: [Row; JCAP] = [ROW0; JCAP];
 pub static mut JN: usize = 0;
 /// per-harness concrete bound on table entries (set together with fjall::set_limit): the lookup
 /// case split has JLIMIT branches instead of JCAP
@@ -45,7 +91,7 @@ pub fn reset() {
     unsafe {
         let mut i = 0;
         while i < JCAP {
-            TABLE[i] = None;
+            TABLE[i] = ROW0;
             i += 1;
         }
         JN = 0;
@@ -76,6 +122,103 @@ impl<T: AsFrame> AsFrame for &T {
     }
 }
 
+fn row_of(f: &Frame) -> Row {
+    let mut r = ROW0;
+    r.used = true;
+    let tb = f.topic.as_bytes();
+    if tb.len() > TMAX {
+        crate::env::nd::bound_exceeded("topic longer than the codec model holds");
+        return r;
+    }
+    r.tlen = tb.len();
+    let mut i = 0;
+    while i < tb.len() {
+        r.topic[i] = tb[i];
+        i += 1;
+    }
+    r.ctx = f.context_id.to_u128();
+    r.id = f.id.to_u128();
+    match &f.ttl {
+        None => r.ttl_kind = 0,
+        Some(crate::store::TTL::Forever) => r.ttl_kind = 1,
+        Some(crate::store::TTL::Ephemeral) => r.ttl_kind = 2,
+        Some(crate::store::TTL::Time(d)) => {
+            r.ttl_kind = 3;
+            r.ttl_secs = d.as_secs();
+            r.ttl_nanos = d.subsec_nanos();
+        }
+        Some(crate::store::TTL::Head(n)) => {
+            r.ttl_kind = 4;
+            r.ttl_n = *n;
+        }
+    }
+    if let Some(h) = &f.hash {
+        r.has_hash = true;
+        r.hash = h.token;
+    }
+    match &f.meta {
+        None => r.meta_kind = 0,
+        Some(Value::Null) => r.meta_kind = 1,
+        Some(Value::Bool(b)) => {
+            r.meta_kind = 2;
+            r.meta_num = *b as u64;
+        }
+        Some(Value::Number(n)) => {
+            r.meta_kind = 3;
+            r.meta_num = *n;
+        }
+        Some(Value::Str(a, n)) => {
+            r.meta_kind = 4;
+            r.meta_slen = *n;
+            r.meta_s = *a;
+        }
+    }
+    r
+}
+
+fn frame_of(r: &Row) -> Frame {
+    // one String with concrete capacity, (possibly symbolic) length via truncate
+    let mut tv: Vec<u8> = Vec::with_capacity(TMAX);
+    let mut i = 0;
+    while i < TMAX {
+        tv.push(r.topic[i]);
+        i += 1;
+    }
+    tv.truncate(r.tlen);
+    // SAFETY: the bytes were taken from a String
+    let topic = unsafe { String::from_utf8_unchecked(tv) };
+    let ttl = if r.ttl_kind == 0 {
+        None
+    } else if r.ttl_kind == 1 {
+        Some(crate::store::TTL::Forever)
+    } else if r.ttl_kind == 2 {
+        Some(crate::store::TTL::Ephemeral)
+    } else if r.ttl_kind == 3 {
+        Some(crate::store::TTL::Time(core::time::Duration::new(r.ttl_secs, r.ttl_nanos)))
+    } else {
+        Some(crate::store::TTL::Head(r.ttl_n))
+    };
+    let meta = if r.meta_kind == 0 {
+        None
+    } else if r.meta_kind == 1 {
+        Some(Value::Null)
+    } else if r.meta_kind == 2 {
+        Some(Value::Bool(r.meta_num != 0))
+    } else if r.meta_kind == 3 {
+        Some(Value::Number(r.meta_num))
+    } else {
+        Some(Value::Str(r.meta_s, r.meta_slen))
+    };
+    Frame {
+        topic,
+        context_id: scru128::Scru128Id::from_u128(r.ctx),
+        id: scru128::Scru128Id::from_u128(r.id),
+        hash: if r.has_hash { Some(crate::env::ssri::Integrity { token: r.hash }) } else { None },
+        meta,
+        ttl,
+    }
+}
+
 #[allow(static_mut_refs)]
 pub fn to_vec<T: AsFrame>(v: &T) -> Result<Vec<u8>, Error> {
     unsafe {
@@ -83,12 +226,11 @@ pub fn to_vec<T: AsFrame>(v: &T) -> Result<Vec<u8>, Error> {
             crate::env::nd::bound_exceeded("frame codec table");
             return Err(Error);
         }
-        let mut item = Some(v.as_frame().clone());
+        let row = row_of(v.as_frame());
         let mut j = 0;
         while j < JLIMIT {
             if j == JN {
-                // no drop glue for the (empty) previous occupant
-                core::mem::forget(core::mem::replace(&mut TABLE[j], item.take()));
+                TABLE[j] = row;
             }
             j += 1;
         }
@@ -101,18 +243,17 @@ pub fn to_vec<T: AsFrame>(v: &T) -> Result<Vec<u8>, Error> {
 }
 
 pub trait FromFrame: Sized {
-    fn from_frame(f: &Frame) -> Self;
+    fn from_frame(f: Frame) -> Self;
 }
 impl FromFrame for Frame {
-    fn from_frame(f: &Frame) -> Self {
-        f.clone()
+    fn from_frame(f: Frame) -> Self {
+        f
     }
 }
 
 #[allow(static_mut_refs)]
 pub fn from_slice<T: FromFrame>(b: &[u8]) -> Result<T, Error> {
     unsafe {
-        // Case split on the (possibly symbolic) index: each branch reads a concrete slot.
         // Under Kani no `Err` path exists syntactically (xs's panic path behind it drags
         // formatting and validation into every read); that the stored bytes decode is
         // *asserted* first, not silently assumed.
@@ -125,38 +266,15 @@ pub fn from_slice<T: FromFrame>(b: &[u8]) -> Result<T, Error> {
             return Err(Error);
         }
         let i = b[0] as usize;
-        let mut j = 0;
-        // entries >= JN do not exist: the last branch is the default, so JLIMIT-1 comparisons
-        let last = if JN > 0 { JN - 1 } else { 0 };
-        while j + 1 < JLIMIT {
-            if i == j && j < last {
-                return Ok(T::from_frame(slot(j)));
+        // select the row's scalars by case split on the (possibly symbolic) index
+        let mut row = TABLE[0];
+        let mut j = 1;
+        while j < JLIMIT {
+            if i == j {
+                row = TABLE[j];
             }
             j += 1;
         }
-        Ok(T::from_frame(slot_sym(last)))
-    }
-}
-/// `last` may be symbolic after a merge: pick by case split
-#[allow(static_mut_refs)]
-unsafe fn slot_sym(last: usize) -> &'static Frame {
-    let mut j = 0;
-    while j + 1 < JLIMIT {
-        if j == last {
-            return slot(j);
-        }
-        j += 1;
-    }
-    slot(JLIMIT - 1)
-}
-#[allow(static_mut_refs)]
-unsafe fn slot(j: usize) -> &'static Frame {
-    match &TABLE[j] {
-        Some(f) => f,
-        None => {
-            #[cfg(kani)]
-            kani::assume(false);
-            unreachable!()
-        }
+        Ok(T::from_frame(frame_of(&row)))
     }
 }
